@@ -30,7 +30,7 @@ Print Assumptions seek_contract_one_call.
    of Prometheus; both are arbitrary functions related only by the anchoring law. *)
 From Coq Require Import NArith String Sorting.Sorted.
 From Qryn Require Import model.Sql model.Logql model.LogqlPlan model.PromSelect model.PromSel model.PromSem model.PromCase
-  proofs.PromSelProofs.
+  model.ProfSel model.ProfSem proofs.PromSelProofs.
 
 (* The reference interpreter applied to the planner's own fingerprint query (the tree whose rendering
    is compared byte for byte with the implementation's SQL) computes the list function fp_sel. *)
@@ -129,3 +129,49 @@ Theorem use_raw_data_decision : forall h,
   (~ (15000 | h_start h) \/ h_step h < 15000 \/ 0 < h_range h < 15000 \/ List.In (h_func h) explicitly_unsupported).
 Proof. exact use_raw_data_spec. Qed.
 Print Assumptions use_raw_data_decision.
+
+(* ---------- profile (Pyroscope) selectors ----------
+   prof_fp_sel is the list-function reading of the statement StreamSelectorPlanner emits (its agreement
+   with the reference interpreter on the planner's own tree is checked by computation on every generated
+   case, verdict 9 of psem_verdict); pgin_of derives profiles_series_gin from the stored series. *)
+
+(* which fingerprints the statement returns: with key/value selectors, those for which every such selector
+   is witnessed by an index row inside the date bounds that also passes every pseudo-label condition;
+   without, those with one such row *)
+Theorem prof_statement_meaning : forall re D1 D2 sels rows fp,
+  let '(g, kv) := split_selectors sels in
+  (List.length kv <= 8)%nat ->
+  (List.In fp (prof_fp_sel re D1 D2 sels rows) <->
+   match kv with
+   | [] => exists r, prow_sem re D1 D2 g rows fp r
+   | _ => forall k, List.In k kv -> exists r, prow_sem re D1 D2 g rows fp r /\ eval_clause re (sel_clause_of k) (to_gin r) = true
+   end).
+Proof. exact prof_sel_correct. Qed.
+Print Assumptions prof_statement_meaning.
+
+(* full statement false: a selector accepting the empty string on a series lacking the label *)
+Theorem prof_select_exact_refuted :
+  ~ (forall (re_match re_full : string -> string -> bool), (forall v p, re_match v (anchor p) = re_full v p) ->
+     forall D1 D2 sels series fp, pdb_ok series ->
+       (List.length (snd (split_selectors (map prof_selector_val sels))) <= 8)%nat ->
+       (List.In fp (prof_fp_sel re_match D1 D2 (map prof_selector_val sels) (pgin_of series)) <->
+        List.In fp (prof_expected re_full D1 D2 sels series))).
+Proof.
+  intros H. specialize (H re_none re_none (fun _ _ => eq_refl) 19675 19675 pw_sels pw_series 61%N pw_db_ok).
+  rewrite pw_selected, pw_expected in H. assert (H' := H ltac:(cbn; auto with arith)). destruct H' as [_ H']. apply H'. now left.
+Qed.
+Print Assumptions prof_select_exact_refuted.
+
+(* partial: selectors on non-pseudo labels reject the empty string (or no stored series lacks the label),
+   at most 8 of them: the statement returns exactly the fingerprints of the stored series inside the date
+   bounds that satisfy every selector (pseudo labels from type id / sample types / service name, other
+   labels with absent = "", regexes anchored) *)
+Theorem prof_select_exact_partial : forall (re_match re_full : string -> string -> bool),
+  (forall v p, re_match v (anchor p) = re_full v p) ->
+  forall D1 D2 sels series fp, pdb_ok series ->
+    (List.length (snd (split_selectors (map prof_selector_val sels))) <= 8)%nat ->
+    (forall sel, List.In sel sels -> selector_guard re_full series sel) ->
+    (List.In fp (prof_fp_sel re_match D1 D2 (map prof_selector_val sels) (pgin_of series)) <->
+     List.In fp (prof_expected re_full D1 D2 sels series)).
+Proof. intros re_match re_full Hl. intros. now apply (prof_fp_select re_match re_full Hl). Qed.
+Print Assumptions prof_select_exact_partial.
